@@ -41,6 +41,11 @@ NEEDS = {
  "C09c_dot_script_fd_not_cloexec": "descriptors 3..9 all open when a script is sourced with `.`",
  "C16c_readonly_local_in_function": "`readonly NAME[=VALUE]` executed inside a function, then the function returns and the name is looked up, assigned or unset",
  "C20c_kill_attached_sig_prefix": "kill -s/-n with the signal attached to the option letter and carrying the SIG prefix (-sSIGINT)",
+ "C01d_trim_pattern_escapes_dropped": "a trim modifier whose pattern contains an unquoted expansion whose value has a backslash before another character",
+ "C02d_negation_lost_before_alias": "`!` followed by a word that is an alias defined on an earlier line (independent rediscovery of the C17c mechanism)",
+ "C03d_arith_assign_local_scope": "an arithmetic assignment / ++ / -- evaluated inside a function on a variable that is not local to it (also: a read-only global)",
+ "C04d_range_ending_with_bracket": "a bracket expression with a range whose end point is an ordinary `[` ([A-[])",
+ "C05d_glob_interrupted_by_any_signal": "interactive shell, a field with a wildcard, and a trapped signal other than SIGINT arriving during the directory scan",
  "C19c_append_after_truncate": "an O_APPEND descriptor kept open, written, the file truncated through another open, then written again",
 }
 for d in sorted(glob.glob('/verif/seeded/*/')):
@@ -50,7 +55,7 @@ for d in sorted(glob.glob('/verif/seeded/*/')):
         continue
     m = json.load(open(p))
     m['property'] = name[:3]
-    m['round'] = {'b': 2, 'c': 3}.get(name[3], 1)
+    m['round'] = {'b': 2, 'c': 3, 'd': 4}.get(name[3], 1)
     if name in NEEDS:
         m['needs_to_manifest'] = NEEDS[name]
     m.setdefault('what_i_ran', [
